@@ -14,11 +14,10 @@ import sys
 import time
 
 
-def run(tier='quick', seed=0):
+def run(tier='quick', seed=0, observer=None, n_goals_override=None):
     t0 = time.time()
     if os.environ.get('HOLPY_REPO', '/repo') not in sys.path:
         sys.path.insert(0, os.environ.get('HOLPY_REPO', '/repo'))
-    import os
     os.chdir(os.environ.get('HOLPY_REPO', '/repo'))
     from logic import basic, context
     basic.load_theory('logic_base')
@@ -192,6 +191,11 @@ def run(tier='quick', seed=0):
             if errs:
                 report(errs, goal_str, trace, 'after step %d' % k)
                 return
+            if observer is not None:
+                observer(state, {'rng': rng, 'sorry_ids': sorry_ids, 'usable_facts': usable_facts,
+                                 'fill_params': lambda st_, sp_, g_: fill_params(st_, sp_, g_, exact=True),
+                                 'all_items': all_items, 'goal': goal_str,
+                                 'trace': list(trace), 'ctx_vars': ctx_vars})
         distinct.add(goal_str + '|' + json.dumps(trace, sort_keys=True, default=str))
         if len(samples) < 3:
             samples.append({'goal': goal_str, 'steps': [dict(s) for s in trace][:6]})
@@ -248,19 +252,34 @@ def run(tier='quick', seed=0):
 
     fresh_counter = [0]
 
-    def fill_params(state, step, gid):
+    def fill_params(state, step, gid, exact=False):
+        """Supply the parameters the method declares and the step leaves open.  exact: only parameters that the
+        method must accept (C14); otherwise some are deliberately unsuitable (C13: such steps must be rejected, not
+        half done).  Returns None when exact parameters cannot be supplied."""
         m = method.global_methods[step['method_name']]
         for sig in m.sig:
             if sig in step:
                 continue
             if sig == 'names':
                 fresh_counter[0] += 1
-                step['names'] = ', '.join('n%d_%d' % (fresh_counter[0], i) for i in range(rng.choice([1, 1, 2])))
+                k_names = 1 if exact else rng.choice([1, 1, 2])
+                step['names'] = ', '.join('n%d_%d' % (fresh_counter[0], i) for i in range(k_names))
             elif sig == 's':
+                want_T = TA
+                if exact:
+                    try:
+                        if step['method_name'] == 'forall_elim':
+                            want_T = state.get_proof_item(ItemID(step['fact_ids'][0])).th.prop.arg.var_T
+                        elif step['method_name'] == 'inst_exists_goal':
+                            want_T = state.get_proof_item(gid).th.prop.arg.var_T
+                    except Exception:
+                        return None
                 try:
-                    vs = [nm for nm, T in state.get_vars(gid).items() if T == TA]
+                    vs = [nm for nm, T in state.get_vars(gid).items() if T == want_T]
                 except Exception:
-                    vs = ['a']
+                    vs = [] if exact else ['a']
+                if exact and not vs:
+                    return None
                 step['s'] = rng.choice(vs or ['a'])
             elif sig in ('goal', 'case'):
                 subs = []
@@ -303,7 +322,7 @@ def run(tier='quick', seed=0):
                         t_ = t_.arg
             except Exception:
                 nq = 1
-            if rng.random() < 0.1:
+            if not exact and rng.random() < 0.1:
                 nq += 1            # one name too many: the step should be rejected, not half done
             step['names'] = ', '.join('i%d_%d' % (fresh_counter[0], i) for i in range(nq))
         return step
@@ -430,6 +449,8 @@ def run(tier='quick', seed=0):
 
     # ---------------------------------------------------------------- (1) generated goals
     n_goals = 240 if tier == 'quick' else 1200
+    if n_goals_override is not None:
+        n_goals = n_goals_override
     for gi in range(n_goals):
         context.set_context('logic_base', vars=dict(gen_vars))
         nas = rng.choice([0, 1, 2, 2])
